@@ -1217,7 +1217,17 @@ func (c *Compiler) adjustJumpTargets(headerOffset uint32) {
 		opcode := c.code[i]
 		i++
 
-		if jumpOpcodes[opcode] {
+		if opcode == byte(vm.OpAsync) {
+			// The body of an async block follows its length operand. The VM
+			// copies it out and runs it from offset 0 on a VM of its own, so
+			// its jump targets are relative to the body and must stay so:
+			// adding the header offset sent every if, loop and switch inside
+			// an async block to an address outside the block.
+			if i+4 <= len(c.code) {
+				i += int(binary.LittleEndian.Uint32(c.code[i : i+4]))
+			}
+			i += 4
+		} else if jumpOpcodes[opcode] {
 			// Read the current operand (4 bytes, little-endian)
 			if i+4 <= len(c.code) {
 				currentTarget := binary.LittleEndian.Uint32(c.code[i : i+4])
